@@ -809,4 +809,14 @@ disconnected or removed with its owner. -/
 theorem service_properties_kept :
     Gen.RemovalProbe.serviceKept.all (fun r => r.2.2.2) = true ∧ Gen.RemovalProbe.serviceKept.length > 0 := by decide
 
+/-- The removal model deletes what hangs below a node by walking the containment graph: every interface of every service the
+node owns, whatever it is called.  Interface names are unique per *service* only, so a node that owns several services
+directly holds several interfaces of one name; the probe (`gen/removalplan.py: probe_own_services`, regenerated on every run)
+pins that the code collects "the interfaces of the node" the same way - by identity, not by name: `remove_node`,
+`remove_switch` and `prune` on a node / a switch with 1, 2, 3 services, each with a connected `p1`, leave no service-side port
+and no link of any of them behind; and the table is not vacuous (hosts with several such services are in it). -/
+theorem own_services_removal_clean :
+    Gen.RemovalProbe.ownServicesRemoval.all (fun r => r.2.2.2) = true ∧
+    Gen.RemovalProbe.ownServicesRemoval.any (fun r => decide (r.2.2.1 ≥ 2)) = true := by decide
+
 end FimVerif.C08
